@@ -100,6 +100,7 @@ func Gen(profile string, seed uint64) (*Config, Plan) {
 	for _, k := range []string{"partition", "crash", "crashop", "clock", "stall", "burst", "oneway"} {
 		kinds[k] = g.Chance(0.6)
 	}
+	kinds["stopstart"] = g.Chance(0.35)
 
 	switch profile {
 	case ProfCore:
@@ -137,6 +138,9 @@ func Gen(profile string, seed uint64) (*Config, Plan) {
 		}
 		cfg.WritePm, cfg.LinReadPm = 450, 550
 		cfg.AnyNodePm = pick(g, 400, 700)
+		// Long heartbeat intervals widen the window in which a read can join a verification
+		// round that is already in flight.
+		cfg.HeartbeatMs = cfg.ElectionMs * 10 / pick(g, 15, 20, 30, 50, 80)
 		cfg.HeavyTailPm = pick(g, 20, 60, 120)
 		cfg.HeavyTailMs = cfg.ElectionMs * pick(g, 2, 4, 6)
 		cfg.Clients = pick(g, 2, 3, 4)
@@ -314,12 +318,6 @@ func Gen(profile string, seed uint64) (*Config, Plan) {
 		case "clock":
 			if g.Chance(0.5) {
 				lo := -3 * int64(cfg.ElectionMs)
-				if cfg.SnapThreshold > 0 {
-					// Snapshot directories are ordered by wall-clock names: a backward step
-					// makes a newer snapshot sort before an older one. No listed property
-					// quantifies over clock steps together with snapshots (DESIGN, later rounds).
-					lo = 1
-				}
 				plan = append(plan, Step{AtMs: at, Kind: StepClockJump, Node: node, A: g.Range(lo, 3*int64(cfg.ElectionMs))})
 			} else {
 				num := int64(pick(g, 80, 90, 110, 125))
@@ -331,8 +329,31 @@ func Gen(profile string, seed uint64) (*Config, Plan) {
 				st.Str = "leader"
 			}
 			plan = append(plan, st)
+		case "stopstart":
+			st := Step{AtMs: at, Kind: StepStopStart, Node: node, A: g.Range(0, 3*int64(cfg.ElectionMs))}
+			if g.Chance(0.4) {
+				st.Str = "leader"
+			}
+			plan = append(plan, st)
 		case "burst":
 			plan = append(plan, Step{AtMs: at, Kind: StepBurst, A: g.Range(2, 12)})
+		}
+	}
+	if profile == ProfReads || profile == ProfLease {
+		// Bias: mute the current leader (outgoing only) a few times, so that it stays leader in its
+		// own eyes while late replies keep arriving and a new leader takes over on the other side.
+		for i := 0; i < pick(g, 1, 2, 3); i++ {
+			at := g.Range(int64(cfg.ElectionMs), tmax)
+			plan = append(plan, Step{AtMs: at, Kind: StepOneWay, Str: "leader"})
+			plan = append(plan, Step{AtMs: at + g.Range(2*int64(cfg.ElectionMs), 8*int64(cfg.ElectionMs)), Kind: StepHeal})
+		}
+		if profile == ProfReads {
+			// A leader frozen for a few election timeouts (GC pause, SIGSTOP, VM migration) wakes
+			// up deposed, with replies and client requests queued: everything happens at once.
+			for i := 0; i < pick(g, 1, 2, 4); i++ {
+				at := g.Range(int64(cfg.ElectionMs), tmax)
+				plan = append(plan, Step{AtMs: at, Kind: StepStall, Str: "leader", Node: ids[0], A: g.Range(int64(cfg.ElectionMs), 5*int64(cfg.ElectionMs))})
+			}
 		}
 	}
 	if cfg.RedeliverPm > 0 && g.Chance(0.5) {
